@@ -140,7 +140,6 @@ Definition spec_selected (p : params) (f : fire_in) (x : N * N) : bool :=
   | None => false
   end.
 
-Definition opt_list {A} (o : option (list A)) : list A := match o with Some l => l | None => [] end.
 
 Definition spec_fire_ok (p : params) (i : sched_in) (f : fire_in) (o : fire_out) : bool :=
   let s := f_slot f in
@@ -172,9 +171,10 @@ Definition spec_fire_ok (p : params) (i : sched_in) (f : fire_in) (o : fire_out)
            nodupb N.eqb (map (fun m => snd (fst m)) got)
            && forallb (fun m => let '(ms, mr, mv, mx) := m in
                                 (ms =? s) && (mr =? r) && inb N.eqb mv sgn && sg_eqb mx (SgRoot mv (s / spe p) r)) got
-           (* completeness: every member with an account and a signature has its message, whatever
-              the other members lack; only failures of a whole batch excuse *)
-           && (if sel_fault || f_root_err f || f_submit_err f then true
+           (* completeness: every member with an account and a signature has its message in the
+              payload handed to the submitter (whether or not the submitter then fails), whatever
+              the other members lack; only a signer failing for a whole batch excuses *)
+           && (if sel_fault || f_root_err f then true
                else subsetb msg_eqb (want_msgs r) got)
            (* aggregation *)
            && (let aggs := filter (spec_selected p f) pairs in
@@ -193,6 +193,14 @@ Definition spec_fire_ok (p : params) (i : sched_in) (f : fire_in) (o : fire_out)
                             && (if f_cp_err f || existsb (fun x => inb N.eqb (snd x) (f_contrib_err f)) aggs then true
                                 else subsetb contrib_eqb want_c got_c)
                         end))
+           (* what the root signer is asked: the slot's epoch, the slot's head root, accounts of
+              members that have one and no nil hole (a nil account fails the whole batch) *)
+           && match o_root_call o with
+              | None => true
+              | Some (accts, e, rr) =>
+                  (e =? s / spe p) && (rr =? r)
+                  && forallb (fun a => match a with Some v => inb N.eqb v sgn | None => false end) accts
+              end
        end
   end.
 
